@@ -122,6 +122,8 @@ def main(argv=None):
         return do_replay(a.replay if os.path.isabs(a.replay) else os.path.join(OUT, a.replay))
     seed = int(os.environ.get('VERIF_SEED', '0') or 0)
     tier = a.tier if a.tier in ('quick', 'thorough') else 'quick'
+    if tier == 'thorough' and 'VERIF_CROSSCHECK' not in os.environ:
+        os.environ['VERIF_CROSSCHECK'] = '10'      # every unsat re-derived by cvc5 (10 s per leaf), see prove._check_once
     t0 = time.time()
     pm = importlib.import_module('props.' + prop)
     from fvverif import runner
@@ -159,6 +161,8 @@ def main(argv=None):
             conf_cases += cf['compared']
             if cf['problems']:
                 faults.append('model/real disagreement in %s: %s' % (r['oid'], cf['problems'][:2]))
+        if 'BACKEND-DISAGREEMENT' in (r.get('error') or ''):
+            faults.append('back ends disagree on a leaf of %s: %s' % (r['oid'], r['error']))
         if r['status'] == 'crash':
             faults.append('crash in %s: %s' % (r['oid'], (r['error'] or '')[-400:]))
             continue
